@@ -146,6 +146,9 @@ def build(case):
         deck.surfs[-1].params = [1 / rad**2, 1 / (0.8 * rad)**2,
                                  1 / (1.1 * rad)**2, 0, 0, 0, -1, 0.1, 0.0, -0.1]
     base = M.Cell(1, mat=1, rho='-2.7', geom=M.S(-1), imp={'n': '1'})
+    if fam == 'imp' or rng.random() < 0.15:
+        base.imp = rng.choice([{'n,p': '1'}, {'n': '1', 'p': '1'},
+                               {'p,n': '2'}, {'n': '1'}])
     if fam == 'base-has-all' or rng.random() < 0.3:
         base.trcl = tr_spec(rng, Motion(list(slots[0])), 'inline3')
         if fam == 'base-has-all':
@@ -214,7 +217,18 @@ def build(case):
         if int(new.mat) != 0 and new.rho is None:
             new.rho = '-1.1'
             extra.add('rho')
-        if 'imp' in extra:
+        if 'imp' in extra and set(parent.imp) & {'n,p', 'p,n'}:
+            # the copied cell groups the particle types (IMP:N,P=x): the BUT
+            # list names them one by one, or in the other order
+            val = rng.choice(['0', '0', '3'])
+            new.imp = rng.choice([{'n': val, 'p': val},
+                                  {'p,n' if 'n,p' in parent.imp else 'n,p':
+                                   val},
+                                  {'n': val, 'p': rng.choice(['0', '1'])}])
+        elif 'imp' in extra and {'n', 'p'} <= set(parent.imp) and \
+                rng.random() < 0.5:
+            new.imp = {rng.choice(['n,p', 'p,n']): rng.choice(['0', '0', '2'])}
+        elif 'imp' in extra:
             # per particle designator: the others are inherited
             new.imp = dict(parent.imp)
             new.imp['n'] = rng.choice(['0', '3', '1'])
